@@ -27,7 +27,9 @@ ASSUMPTIONS = [
     "in the synchronous variant peers of a failed rank stay blocked in the collective barrier until the process-group "
     "timeout fires; the model has a timeout action (a blocked rank may give up and raise at any time, also spuriously) and "
     "every theorem holds with it; the harness does not simulate timeouts: a blocked peer is counted as 'did not report success'",
-    "the async variant's error propagation through the store barrier is proved under C13 and exercised here end to end",
+    "the async variant's error propagation through the store barrier is proved under C13 and exercised here end to end; when "
+    "a write fails inside async_take itself (tight memory budget: I/O overlaps staging) the failing rank raises from async_take "
+    "and its peers wait for the store-barrier timeout (blocked, as in the synchronous variant)",
 ]
 IMPORTS = "From TS Require Import model.Commit.\n"
 
@@ -106,7 +108,9 @@ def correspond(ctx: Ctx) -> Result:
                             res.failures.append(Failure("C03:async:wait-did-not-raise-on-every-rank",
                                                         f"write #{fn_} of rank {fr} failed but wait() returned normally on ranks {quiet} [W={wl['W']} sched={sched}]", replay))
                         hung = [r for r in range(wl["W"]) if isinstance(world.errors[r], Deadlock)]
-                        if hung:
+                        fg = cc.foreground_failure(world, fr)
+                        res.count("async.failure_phase", "foreground (async_take raised)" if fg else "background")
+                        if hung and not fg:
                             res.failures.append(Failure("C03:async:hang-after-failure", f"ranks {hung} blocked for ever after the failure of rank {fr}", replay))
                     # --- correspondence with the model (sync) ------------------------------------
                     if mode == "sync":
